@@ -14,6 +14,7 @@ mod p13;
 mod p14;
 mod p16;
 mod p17;
+mod p20;
 mod p08;
 mod props;
 mod tables;
@@ -127,6 +128,7 @@ fn main() {
         "C06" => p06::run(&args),
         "C04" => p04::run(&args),
         "C17" => p17::run(&args),
+        "C20" => p20::run(&args),
         "C08" => p08::run08(&args),
         "C09" => p08::run09(&args),
         "C10" => p08::run10(&args),
